@@ -134,6 +134,18 @@ class Builder:
     def b_Store(self, e, env):
         return self.vars[e[1]].store(self.b(e[2], env))
 
+    def b_DynSet(self, e, env):
+        return self.vars[e[1]].set_index(self.vars[e[2]])
+
+    def b_DynLoad(self, e, env):
+        return self.vars[e[1]].load()
+
+    def b_DynStore(self, e, env):
+        return self.vars[e[1]].store(self.b(e[2], env))
+
+    def b_SlotIndex(self, e, env):
+        return self.vars[e[1]].index()
+
     def b_Param(self, e, env):
         return env[e[1]]
 
